@@ -1890,6 +1890,11 @@ def type_written_twice_is_one_type(ctx):
             ne = hi.call_function(mraw["__eq__"], [t1, t3], {}, {})
             h1 = hi.call_function(mraw["__hash__"], [t1], {}, {})
             h2 = hi.call_function(mraw["__hash__"], [t2], {}, {})
+            rep = None
+            if init.args.vararg is not None:
+                # a member written twice (`Union[int, Annotated[int, ..], str]` after normalisation) adds nothing
+                t4 = build((A_, A_, B_))
+                rep = (hi.call_function(mraw["__eq__"], [t1, t4], {}, {}), hi.call_function(mraw["__eq__"], [t4, t1], {}, {}), hi.call_function(mraw["__hash__"], [t4], {}, {}))
         except (AnalysisError, Raised, TypeError, AttributeError) as e:
             raise AnalysisError(f"{H.key}: types made from it are not interpretable: {e}")
         what = "the same members (in another order)" if init.args.vararg is not None else "the same check function and equal arguments"
@@ -1900,6 +1905,11 @@ def type_written_twice_is_one_type(ctx):
             problems.append(f"two types made from {what} are equal but hash differently")
         if ne is not NotImplemented and ne:
             problems.append("two types made from different arguments compare equal")
+        if rep is not None and not problems:
+            if rep[0] is NotImplemented or rep[1] is NotImplemented or not rep[0] or not rep[1]:
+                problems.append("a combination that names one member twice (two spellings of one type among the members) compares unequal to the one that names it once")
+            elif rep[2] != h1:
+                problems.append("a combination that names one member twice is equal to the one that names it once but hashes differently")
         ctx.ob(
             f"{H.key}:written-twice-is-one-type",
             H.loc(),
@@ -2549,3 +2559,90 @@ def class_argument_matches_its_metaclass(ctx):
         got_meta is True,
         f"subclasscheck(type[Abs], ABCMeta) {got_meta if isinstance(got_meta, str) else 'answers ' + repr(got_meta)} although Abs is an instance of ABCMeta: registering a type[...] method that is not applicable to the call changes which method a class argument reaches",
     )
+
+
+# ---------------------------------------------------------------------------------------- re-registration, by interpretation
+def reregistration_keeps_every_method_once(ctx):
+    """The registering method of the function class, interpreted on own tables that already hold the signature (not
+    at all, once, three times, three times with a hole left by an unregistration, next to other signatures): afterwards
+    the new method is the highest-ranked entry of the signature, every earlier method of it is in the table exactly
+    once and in the same order below, and entries of other signatures are untouched - which is what a function built
+    anew from the remaining methods holds."""
+    import dataclasses
+
+    from ..metainterp import HostFn, HostInterp, Raised, Record
+    from .common import method_table_writers
+
+    repo = ctx.repo
+    oc = A.function_class(repo)
+    sc = A.signature_class(repo)
+    cands = []
+    for m, w, st in method_table_writers(ctx):
+        if w.attr == "_defns" and m not in cands and any(isinstance(n, ast.Name) and n.id == sc.name for n in ast.walk(m.node)):
+            cands.append(m)
+    ctx.require(cands, f"{oc.key}: no method extracts a signature and writes the own table")
+
+    @dataclasses.dataclass(frozen=True)
+    class Sig:
+        types: tuple
+        priority: int = 0
+        tiebreak: int = 0
+        req_pos: int = 1
+        max_pos: int = 1
+        req_names: frozenset = frozenset()
+        vararg: bool = False
+
+    S = lambda tb=0, types=("int",), prio=0: Sig(types=types, priority=prio, tiebreak=tb)  # noqa: E731
+    other = {S(0, ("str",)): "other-type", S(0, ("int",), 5): "other-priority", S(-1, ("str",)): "other-type-below"}
+    scenarios = {
+        "first registration": {},
+        "one earlier method": {S(0): "a"},
+        "three earlier methods": {S(0): "c", S(-1): "b", S(-2): "a"},
+        "three earlier methods, the middle one unregistered": {S(0): "c", S(-2): "a"},
+        "the top one unregistered": {S(-1): "b", S(-2): "a"},
+    }
+    for m in cands:
+        ctx.touch(m)
+        params = [a.arg for a in m.node.args.args][1:]
+        problems = []
+        for label, own in scenarios.items():
+            before = {**other, **own}
+            log = []
+            me = Record(_defns=dict(before), mixins=[], children=[], linkback=False, allow_replacement=True, _locked=False, _compiled=True, name="f")
+            for o in oc.methods.values():
+                if o is not m:
+                    setattr(me, o.name, HostFn(lambda *a, _n=o.name, **k: log.append(_n)))
+            new_fn = Record(name="new", sig=S(0))
+            genv = {
+                sc.name: Record(extract=HostFn(lambda fn: fn.sig)),
+                "replace": HostFn(dataclasses.replace),
+                "dataclasses": Record(replace=HostFn(dataclasses.replace)),
+            }
+            hi = HostInterp({}, me, {}, globals_env=genv, classes={}, functions={})
+            args = [me, new_fn] + [0 for p in params[1:]]
+            try:
+                hi.call_function(m.node, args, {}, {})
+            except Raised as e:
+                problems.append(f"[{label}] the registration raises {getattr(e, 'value', e)!r}")
+                continue
+            except (TypeError, AttributeError, KeyError) as e:
+                raise AnalysisError(f"{m.key}: the registering method could not be interpreted on a stand-in table ({type(e).__name__}: {e})")
+            after = me._defns
+            if not isinstance(after, dict) or not all(isinstance(k, Sig) for k in after):
+                raise AnalysisError(f"{m.key}: the own table is not a dict keyed by signatures after registration")
+            same = sorted([k for k in after if dataclasses.replace(k, tiebreak=0) == S(0)], key=lambda k: -k.tiebreak)
+            got = [after[k] for k in same]
+            want = [new_fn] + [own[k] for k in sorted(own, key=lambda k: -k.tiebreak)]
+            show = lambda xs: [getattr(x, "name", x) for x in xs]  # noqa: E731
+            if got != want:
+                problems.append(f"[{label}] the methods of the signature, best first, are {show(got)}; a function built from the remaining methods has {show(want)}")
+            rest = {k: v for k, v in after.items() if k not in same}
+            if rest != other:
+                problems.append(f"[{label}] entries of other signatures changed: {sorted(map(str, rest.values()))}")
+        ctx.ob(
+            f"{m.key}:reregistration-by-interpretation",
+            m.loc(),
+            f"{m.name}() interpreted on {len(scenarios)} own tables (signature absent, present once, three times, with a hole): the new method ranks first, every earlier method of the signature stays exactly once below it in order, other signatures are untouched",
+            not problems,
+            "; ".join(problems[:3]) + ": the method table after this history is not the one a freshly built function has (a stale duplicate answers call_next, or a method is lost)",
+        )
